@@ -394,6 +394,8 @@ def family(tier):
     for s in base[::9]:
         for _, nm in F.exotic_label_maps(s["nodes"]):
             items.append((F.relabel(s, node_map=nm), "absent"))
+    for w in F.big():  # counts above 127 / 255
+        items.append((w, "absent"))
     for w in F.wide():  # more than ten nodes and edges
         items.append((w, "absent"))
         w2 = dict(w)
